@@ -1,2 +1,207 @@
+/* hashmb --mode big : C15, length accounting across the 2^29 / 2^32 / 2^32+2^29 byte totals.
+ * All jobs hash the same periodic stream (a 64 MiB memfd mapped back to back, so one submit
+ * can cover up to 2^32-1 bytes with 64 MiB of RAM) with different segmentations; the oracle
+ * is one OpenSSL streaming pass with snapshots at the totals that are needed. */
 #include "hashalgs.h"
-int hashmb_big(int argc, char **argv) { (void) argc; (void) argv; out_err("big mode not built"); }
+#include <sys/mman.h>
+#include <unistd.h>
+#include <openssl/evp.h>
+#include <multi_buffer.h>
+
+#define PERIOD (64ull << 20)
+#define NCOPY 74
+static uint8_t *stream;         /* NCOPY * PERIOD bytes, periodic */
+
+static void map_stream(void)
+{
+        int fd = memfd_create("verif-stream", 0);
+        if (fd < 0 || ftruncate(fd, (off_t) PERIOD)) out_err("memfd_create/ftruncate failed");
+        uint8_t *base = mmap(NULL, NCOPY * PERIOD, PROT_NONE, MAP_PRIVATE | MAP_ANONYMOUS | MAP_NORESERVE, -1, 0);
+        if (base == MAP_FAILED) out_err("cannot reserve %llu bytes of address space", (unsigned long long) (NCOPY * PERIOD));
+        for (int i = 0; i < NCOPY; i++)
+                if (mmap(base + (size_t) i * PERIOD, PERIOD, i == 0 ? PROT_READ | PROT_WRITE : PROT_READ, MAP_SHARED | MAP_FIXED, fd, 0) == MAP_FAILED) out_err("mirror mmap failed");
+        rng_t r; rng_seed(&r, g_seed ^ 0xb16b16);
+        rng_fill(&r, base, PERIOD);
+        mprotect(base, PERIOD, PROT_READ);
+        stream = base;
+}
+
+typedef struct { uint64_t total; uint8_t digest[64]; } want_t;
+static want_t wants[512]; static int nwants;
+static int want_idx(uint64_t total)
+{
+        for (int i = 0; i < nwants; i++) if (wants[i].total == total) return i;
+        if (nwants == 512) out_err("too many totals");
+        wants[nwants].total = total;
+        return nwants++;
+}
+static int cmp_u64(const void *a, const void *b) { uint64_t x = ((const want_t *) a)->total, y = ((const want_t *) b)->total; return x < y ? -1 : x > y; }
+static void oracle(int ref_alg)
+{
+        const EVP_MD *md = ref_alg == REF_SHA1 ? EVP_sha1() : ref_alg == REF_SHA256 ? EVP_sha256() : ref_alg == REF_SHA512 ? EVP_sha512() : ref_alg == REF_MD5 ? EVP_md5() : EVP_sm3();
+        qsort(wants, (size_t) nwants, sizeof wants[0], cmp_u64);
+        EVP_MD_CTX *c = EVP_MD_CTX_new(), *snap = EVP_MD_CTX_new();
+        if (!EVP_DigestInit_ex(c, md, NULL)) out_err("OpenSSL digest init failed");
+        uint64_t pos = 0;
+        for (int i = 0; i < nwants; i++) {
+                while (pos < wants[i].total) {
+                        uint64_t k = wants[i].total - pos; if (k > (1ull << 30)) k = 1ull << 30;
+                        EVP_DigestUpdate(c, stream + pos, (size_t) k); pos += k;
+                }
+                unsigned l;
+                EVP_MD_CTX_copy_ex(snap, c);
+                EVP_DigestFinal_ex(snap, wants[i].digest, &l);
+        }
+        EVP_MD_CTX_free(c); EVP_MD_CTX_free(snap);
+        /* cross-validate the oracle with the reference on a prefix */
+        uint8_t a[64], b[64];
+        ref_hash(ref_alg, stream, 300000, a);
+        unsigned l; EVP_Digest(stream, 300000, b, &l, md, NULL);
+        if (memcmp(a, b, (size_t) ref_alg_dlen[ref_alg])) out_err("reference and OpenSSL disagree on a prefix of the stream");
+}
+
+#define MAXSEG 24
+typedef struct { uint32_t seg[MAXSEG]; int nseg, next; uint64_t total, accepted; uint8_t *ctx; int inflight, done; int want; } job_t;
+
+/* segmentation of a stream of `total` bytes whose running total crosses `thr` at a chosen residue */
+static void plan(job_t *j, rng_t *r, uint64_t thr, int jidx, int block)
+{
+        static const int64_t dthr[] = { 0, -1, 1, -64, 64, -63, 63, 7 };
+        static const uint32_t huge[] = { 0xffffffffu, 0xffffffc0u, 0x80000000u, 0xfffffff7u };
+        uint64_t resid = (uint64_t) rng_below(r, 3 * (uint32_t) block + 1);
+        if (jidx % 5 == 0) resid = 0;
+        uint64_t total = thr + resid + (jidx % 3 == 0 ? 0 : rng_below(r, 1u << 20));
+        uint64_t cuts[MAXSEG]; int nc = 0;
+        cuts[nc++] = (uint64_t) ((int64_t) thr + dthr[jidx % 8]);             /* a segment boundary at / next to the threshold */
+        if (thr > (1ull << 31) && jidx % 2 == 0) {
+                /* one single submit of nearly 2^32 bytes somewhere before the end */
+                uint32_t h = huge[(jidx / 2) % 4];
+                uint64_t start = rng_below(r, 1u << 16);
+                if (start + h < total) { cuts[nc++] = start; cuts[nc++] = start + h; }
+        }
+        int extra = (int) rng_below(r, 4);
+        for (int i = 0; i < extra; i++) cuts[nc++] = ((uint64_t) rng_u64(r)) % (total + 1);
+        if (jidx % 4 == 1) cuts[nc++] = cuts[0];        /* zero-length UPDATE exactly at the boundary */
+        /* sort, clamp, build segments each < 2^32 */
+        for (int a = 0; a < nc; a++) for (int b = a + 1; b < nc; b++) if (cuts[b] < cuts[a]) { uint64_t t = cuts[a]; cuts[a] = cuts[b]; cuts[b] = t; }
+        uint64_t pos = 0; j->nseg = 0;
+        for (int a = 0; a <= nc; a++) {
+                uint64_t end = a == nc ? total : cuts[a];
+                if (end > total) end = total;
+                if (end < pos) continue;
+                while (end - pos > 0xffffffffull) { if (j->nseg < MAXSEG - 2) j->seg[j->nseg++] = 0xffffffffu; pos += 0xffffffffull; }
+                if (j->nseg < MAXSEG - 1 || a == nc) j->seg[j->nseg++] = (uint32_t) (end - pos), pos = end;
+        }
+        if (pos != total) { j->seg[j->nseg - 1] += (uint32_t) (total - pos); }
+        j->total = total; j->next = 0; j->accepted = 0; j->inflight = 0; j->done = 0;
+}
+
+int hashmb_big(int argc, char **argv)
+{
+        (void) argc; (void) argv;
+        const halg_t *a = halg_by_name(arg_str("--alg", "sha256"));
+        if (!a) out_err("--alg required");
+        const char *fams = arg_str("--fam", "all");
+        int rounds = (int) arg_int("--rounds", 1);
+        uint64_t thr[3]; int nthr = 0;
+        const char *ts = arg_str("--thr", "29");
+        if (strstr(ts, "29")) thr[nthr++] = 1ull << 29;
+        if (strstr(ts, "32")) thr[nthr++] = 1ull << 32;
+        if (strstr(ts, "33")) thr[nthr++] = (1ull << 32) + (1ull << 29);
+        map_stream();
+        /* plans first (they decide which totals the oracle must produce) */
+        static job_t jobs[8][3][4][40];          /* [fam][thr][round][job] */
+        int njobs[8];
+        for (int fi = 0; fi < a->nfam; fi++) {
+                const hfam_t *f = &a->fam[fi];
+                int sync = !strcmp(f->name, "base") || !strcmp(f->name, "sb_sse4");
+                njobs[fi] = sync ? 3 : f->lanes + 1;
+                if (njobs[fi] > 36) njobs[fi] = 36;
+                if (strcmp(fams, "all")) { char t[128], w[32]; snprintf(t, sizeof t, ",%s,", fams); snprintf(w, sizeof w, ",%s,", f->name); if (!strstr(t, w)) { njobs[fi] = 0; continue; } }
+                for (int ti = 0; ti < nthr; ti++) for (int rd = 0; rd < rounds; rd++) for (int k = 0; k < njobs[fi]; k++) {
+                        rng_t r; rng_seed(&r, mix64(g_seed ^ 0xb16, (uint64_t) (((fi * 4 + ti) * 8 + rd) * 64 + k)));
+                        plan(&jobs[fi][ti][rd][k], &r, thr[ti], k + rd * 7, a->block);
+                        want_idx(jobs[fi][ti][rd][k].total);
+                }
+        }
+        for (int fi = 0; fi < a->nfam; fi++) for (int ti = 0; ti < nthr; ti++) for (int rd = 0; rd < rounds; rd++) for (int k = 0; k < njobs[fi]; k++)
+                jobs[fi][ti][rd][k].want = -1;
+        oracle(a->ref_alg);
+        for (int fi = 0; fi < a->nfam; fi++) for (int ti = 0; ti < nthr; ti++) for (int rd = 0; rd < rounds; rd++) for (int k = 0; k < njobs[fi]; k++)
+                for (int w = 0; w < nwants; w++) if (wants[w].total == jobs[fi][ti][rd][k].total) jobs[fi][ti][rd][k].want = w;
+        char rb[300];
+        for (int fi = 0; fi < a->nfam; fi++) {
+                const hfam_t *f = &a->fam[fi];
+                for (int ti = 0; ti < nthr && njobs[fi]; ti++) for (int rd = 0; rd < rounds; rd++) {
+                        job_t *J = jobs[fi][ti][rd]; int n = njobs[fi];
+                        snprintf(rb, sizeof rb, "{\"engine\":\"hashmb\",\"mode\":\"big\",\"alg\":\"%s\",\"fam\":\"%s\",\"thr\":%llu,\"round\":%d,\"seed\":%llu}", a->name, f->name, (unsigned long long) thr[ti], rd, (unsigned long long) g_seed);
+                        snprintf(cur_replay, sizeof cur_replay, "%s", rb);
+                        uint8_t *mgr = aligned_alloc(64, (a->mgr_size + 63) & ~(size_t) 63);
+                        f->init(mgr);
+                        for (int k = 0; k < n; k++) { J[k].ctx = aligned_alloc(64, (a->ctx_size + 63) & ~(size_t) 63); memset(J[k].ctx, 0x5a, a->ctx_size); a->ctx_init(J[k].ctx); }
+                        int remaining = n, bad = 0;
+                        while (remaining > 0 && !bad) {
+                                int progressed = 0;
+                                for (int k = 0; k <= n && !bad; k++) {
+                                        uint8_t *ret;
+                                        if (k < n) {
+                                                job_t *j = &J[k];
+                                                if (j->inflight || j->done) continue;
+                                                int flags = (j->next == 0 ? ISAL_HASH_FIRST : 0) | (j->next == j->nseg - 1 ? ISAL_HASH_LAST : 0);
+                                                uint32_t len = j->seg[j->next];
+                                                LABEL("%s %s big submit total=%llu+%u flags=%d", a->name, f->name, (unsigned long long) j->accepted, len, flags);
+                                                ret = f->submit(mgr, j->ctx, stream + j->accepted, len, flags);
+                                                cur_label[0] = 0;
+                                                j->accepted += len; j->next++; j->inflight = 1; progressed = 1;
+                                                out_count("big_submits", 1); out_count("big_bytes", len);
+                                                if (len >= 0x80000000u) out_count("big_single_submits_ge_2^31", 1);
+                                                if (len == 0) out_count("big_zero_length_updates", 1);
+                                                feat(mix64(0xb16, mix64((uint64_t) fi * 8 + (uint64_t) ti, mix64(j->accepted % (2 * (uint64_t) a->block), (uint64_t) flags * 4 + (j->accepted >= thr[ti])))));
+                                        } else {
+                                                if (progressed) continue;
+                                                LABEL("%s %s big flush", a->name, f->name);
+                                                ret = f->flush(mgr);
+                                                cur_label[0] = 0;
+                                                if (!ret) { out_viol("C15", "big-stranded", rb, "%s %s: flush returned nothing while %d job(s) are unfinished", a->name, f->name, remaining); bad = 1; break; }
+                                        }
+                                        while (ret) {
+                                                int ri = -1;
+                                                for (int q = 0; q < n; q++) if (J[q].ctx == ret) ri = q;
+                                                if (ri < 0 || !J[ri].inflight) { out_viol("C15", "big-phantom", rb, "%s %s: unexpected context handed back", a->name, f->name); bad = 1; break; }
+                                                job_t *j = &J[ri];
+                                                j->inflight = 0;
+                                                uint64_t tl = *(uint64_t *) (j->ctx + a->off_total);
+                                                char key[160];
+                                                if (tl != j->accepted) {
+                                                        snprintf(key, sizeof key, "total-length %s %s", a->name, f->name);
+                                                        out_viol("C15", key, rb, "context reports total_length %llu after segments summing to %llu (threshold 2^%s)", (unsigned long long) tl, (unsigned long long) j->accepted, thr[ti] == (1ull << 29) ? "29" : thr[ti] == (1ull << 32) ? "32" : "32+2^29");
+                                                }
+                                                out_count("big_handbacks", 1);
+                                                if (j->next == j->nseg) {
+                                                        j->done = 1; remaining--;
+                                                        uint8_t got[64] = { 0 };
+                                                        halg_digest_bytes(a, j->ctx, got);
+                                                        if (*(int32_t *) (j->ctx + a->off_status) != ISAL_HASH_CTX_STS_COMPLETE) { snprintf(key, sizeof key, "big-not-complete %s %s", a->name, f->name); out_viol("C15", key, rb, "job not complete after LAST"); }
+                                                        if (j->want < 0 || memcmp(got, wants[j->want].digest, (size_t) a->dbytes)) {
+                                                                char g[129], e[129]; hex(g, got, (size_t) a->dbytes); hex(e, wants[j->want].digest, (size_t) a->dbytes);
+                                                                char segs[300]; size_t so = 0; for (int q = 0; q < j->nseg && so + 12 < sizeof segs; q++) so += (size_t) snprintf(segs + so, sizeof segs - so, "%u,", j->seg[q]);
+                                                                snprintf(key, sizeof key, "big-digest %s %s thr=%s", a->name, f->name, thr[ti] == (1ull << 29) ? "2^29" : thr[ti] == (1ull << 32) ? "2^32" : "2^32+2^29");
+                                                                out_viol("C15", key, rb, "total %llu bytes, segments %s digest %s expected %s", (unsigned long long) j->total, segs, g, e);
+                                                        }
+                                                        out_count("big_jobs_completed", 1);
+                                                        char cn[64]; snprintf(cn, sizeof cn, "big_jobs_%s", thr[ti] == (1ull << 29) ? "2^29" : thr[ti] == (1ull << 32) ? "2^32" : "2^32+2^29"); out_count(cn, 1);
+                                                }
+                                                ret = NULL;
+                                        }
+                                }
+                        }
+                        for (int k = 0; k < n; k++) free(J[k].ctx);
+                        free(mgr);
+                        char cn[64]; snprintf(cn, sizeof cn, "big_rounds_%s_%s", a->name, f->name); out_count(cn, 1);
+                }
+        }
+        out_sample("{\"engine\":\"hashmb big\",\"alg\":\"%s\",\"families\":\"%s\",\"thresholds\":\"%s\",\"example_job\":{\"total\":%llu,\"segments\":[%u,%u,%u],\"nseg\":%d}}",
+                   a->name, fams, ts, (unsigned long long) jobs[0][0][0][0].total, jobs[0][0][0][0].seg[0], jobs[0][0][0][0].seg[1], jobs[0][0][0][0].seg[2], jobs[0][0][0][0].nseg);
+        out_finish();
+        return viol_count() ? 1 : 0;
+}
